@@ -677,6 +677,9 @@ compact_theta_sketch_alloc<A> compact_theta_sketch_alloc<A>::deserialize_v4(
   const auto num_entries_bytes = read<uint8_t>(is);
   const auto flags_byte = read<uint8_t>(is);
   const auto seed_hash = read<uint16_t>(is);
+  if (!is.good()) throw std::runtime_error("error reading from std::istream");
+  if (num_entries_bytes > sizeof(uint32_t)) throw std::invalid_argument("number of entries bytes must not exceed 4: " + std::to_string(num_entries_bytes));
+  if (entry_bits < 1 || entry_bits > 63) throw std::invalid_argument("entry bits must be between 1 and 63: " + std::to_string(entry_bits));
   const bool is_empty = flags_byte & (1 << flags::IS_EMPTY);
   if (!is_empty) checker<true>::check_seed_hash(seed_hash, compute_seed_hash(seed));
   uint64_t theta = theta_constants::MAX_THETA;
